@@ -28,7 +28,9 @@ unedited torrent.
 """
 
 import os
+import shutil
 import logging
+import tempfile
 
 import pyben
 
@@ -151,6 +153,17 @@ def edit_torrent(metafile: str, args: dict) -> dict:
             _assign(meta, "httpseeds", val)
 
     meta["info"] = info
-    os.remove(metafile)
-    pyben.dump(meta, metafile)
+    # encode before touching the file, then swap the new file in atomically
+    data = pyben.dumps(meta)
+    directory = os.path.dirname(os.path.abspath(metafile))
+    tempfd, temp = tempfile.mkstemp(dir=directory, suffix=".tmp")
+    try:
+        with os.fdopen(tempfd, "wb") as tmp:
+            tmp.write(data)
+        shutil.copymode(metafile, temp)
+        os.replace(temp, metafile)
+    except BaseException:
+        if os.path.exists(temp):
+            os.remove(temp)
+        raise
     return meta
